@@ -31,6 +31,8 @@ pub struct TreeCfg {
     pub invalid: usize,
     /// max ms between blocks
     pub ts_step_max: u64,
+    /// per mille chance to skip a committable transaction (keeps proposals uncommitted longer)
+    pub commit_skip_pm: u64,
 }
 
 impl Default for TreeCfg {
@@ -46,6 +48,7 @@ impl Default for TreeCfg {
             junk_proposals: 2,
             invalid: 2,
             ts_step_max: 20_000,
+            commit_skip_pm: 150,
         }
     }
 }
@@ -228,7 +231,7 @@ impl TreeGen {
                 if created.contains(&th) {
                     continue;
                 }
-                if self.rng.chance(150, 1000) {
+                if self.rng.chance(self.cfg.commit_skip_pm, 1000) {
                     continue;
                 }
                 let mut ok = true;
@@ -427,8 +430,9 @@ impl TreeGen {
         self.extend_ex(parent, &[])
     }
 
-    /// Like `extend`, additionally proposing the given (externally known) transactions.
-    pub fn extend_ex(&mut self, parent: &H, extra: &[TransactionView]) -> H {
+    /// Build (but neither process nor register) a valid child of `parent`; returns the built
+    /// block, the spec it was built from and the transactions it newly proposes.
+    pub fn draft_ex(&mut self, parent: &H, extra: &[TransactionView]) -> (builder::Built, BlockSpec, Vec<TransactionView>) {
         self.goto(parent);
         let prec = self.rc.get(parent).clone();
         let n = prec.number + 1;
@@ -509,6 +513,15 @@ impl TreeGen {
             nonce: self.rng.next_u64() as u128,
         };
         let built = builder::build_block(&self.b.shared, &self.gi, &spec);
+        (built, spec, new_txs)
+    }
+
+    /// Like `extend`, additionally proposing the given (externally known) transactions.
+    pub fn extend_ex(&mut self, parent: &H, extra: &[TransactionView]) -> H {
+        let (built, spec, new_txs) = self.draft_ex(parent, extra);
+        let n = self.rc.get(parent).number + 1;
+        let commits = spec.txs.clone();
+        let uncles = spec.uncles.clone();
         let res = self.b.process(&built.block);
         match res {
             Ok(true) => {}
@@ -678,8 +691,7 @@ impl TreeGen {
                     .transactions_root(packed::Byte32::from_slice(&r).unwrap())
                     .build();
                 // keep body, replace header without recomputing roots
-                let raw = block.data().as_builder().header(header.data()).build();
-                raw.into_view_without_reset_header()
+                builder::replace_header(&block, header.data())
             }
             Mutation::BadChainRoot => {
                 let mut ext = block.extension()?.raw_data().to_vec();
